@@ -209,7 +209,7 @@ class Gateway(Harness):
             pool = jids + ["fresh1", jids[0], "fresh2"]
             seq = [pool[ch.pick(len(pool), f"uuid{k}")] for k in range(2)] + ["fresh3", "fresh4"]
             it = iter(seq)
-            g_router.uuid = types.SimpleNamespace(uuid4=lambda: next(it))
+            g_router.uuid = types.SimpleNamespace(uuid4=lambda: Uid(next(it)))
             before = {j: (router.jobs[j].progress, dict(router.jobs[j].results)) for j in jids}
             spec = types.SimpleNamespace(use_slurm=False, hosts=1, workers_per_host=1, envvars={}, benchmark_name="x", job_instance=None)
             new1 = router.spawn_job(spec)
